@@ -96,7 +96,9 @@ def parse(tokens, mode="pvl"):
         if peek()[0] == "UNITS":
             u = nxt()
             if odl and not (isinstance(v, (int, float)) and not isinstance(v, bool)):
-                flags["unspec"] = flags["unspec"] or "ODL units after a non-number"
+                # ODL 2.1: a units expression belongs to a numeric value only; after anything else
+                # it is a token that no statement form admits
+                raise Ill("odl-units-after-non-number")
             v = ("Q", v, u[2])
         return v
 
